@@ -26,6 +26,7 @@ def run(ctx) -> None:
     ctx.guard("C17.extension", extension)
     ctx.guard("C17.context", context)
     ctx.guard("C17.str", strings)
+    ctx.guard("C17.accepts-valid", accepts_valid)
     # the device classes take the file path exactly like the base class (auto-save works for every worklist type)
     from . import c16
 
@@ -118,6 +119,19 @@ def open_config(ctx) -> None:
         elif sep is not None and nl in ("", "\n"):
             eff = sep
         encoding = _const(fv.res.resolve(enc, op.node)) if enc is not None else "<locale default>"
+        et = fv.res.resolve(enc, op.node) if enc is not None else None
+        if isinstance(et, ast.Name) and et.id in f.params[1:]:
+            # the encoding is an (optional) parameter of save: what the documented calls - save(path) and the with-block - write
+            # is decided by its default, provided no call inside the package passes another one
+            d = f.param_default(et.id)
+            passing = []
+            for g in ctx.prog.all_functions(include_inlined=True):
+                for x in own_walk(g.node):
+                    if isinstance(x, ast.Call) and isinstance(x.func, ast.Attribute) and x.func.attr == "save" and (
+                            any(k.arg == et.id or k.arg is None for k in x.keywords) or len(x.args) > 1 or any(isinstance(a, ast.Starred) for a in x.args)):
+                        passing.append(g.qualname)
+            if d is not None and not passing:
+                encoding = _const(d)
     ctx.rep.check(eff == "\r\n", rule, c + "/separator", "effective record separator is CRLF",
                   f"records are joined by {sep!r} and written with newline={nl!r}: the effective separator is {eff!r}, not CRLF", where=w)
     ok_enc = isinstance(encoding, str) and encoding.lower() in LATIN1
@@ -213,3 +227,42 @@ def strings(ctx) -> None:
         for nm in ("__repr__", "__str__"):
             if nm in dev.methods:
                 ctx.rep.refuted(rule, f"{dev.name}.{nm}", f"{dev.name} overrides {nm}", where=dev.methods[nm].where())
+
+
+SAMPLE_RECORDS = (
+    "A;Plate;;;1;;10.00;;;;", "D;Plate;;96 Well;12;;950.00;Water;;128;", "A;T;R1;Trough;0;tube;0.00;;;;", "W;", "W1;", "W2;", "W3;", "W4;", "WD;", "F;", "B;", "S;1", "S;4",
+    "C;", "C;comment with \u00b5l and ; inside", "R;S;;;1;8;D;;;1;96;100;LC;1;1;0", "R;S;;;1;8;D;;;1;96;100.5;LC;2;3;1;3;5",
+    'B;Aspirate(255,"Water","10","10","10","10","10","10","10","10",0,0,0,0,22,0,1,"0C08¯1000000",0,0);', 'B;Dispense(1,"LC","2.5",0,0,0,0,0,0,0,0,0,0,0,22,0,1,"0C0810000000",0,0);',
+    'B;Wash(255,1,1,1,0,"2.0",500,"1.0",500,10,70,30,0,0,1000,0);',
+)
+
+
+def accepts_valid(ctx) -> None:
+    """save() writes every worklist: it is interpreted (rules/init_model.py - our own interpreter, nothing of the repository is
+    executed, nothing is written) with `self` bound to lists of records of every type the package emits - and to the empty
+    list - and a .gwl path; it must not reach a raise through a guard that can be evaluated (e.g. a record filter)."""
+    from . import init_model
+
+    rule = "C17.accepts-valid"
+    base, f, fv = _save(ctx, rule)
+    ctx.rep.touch(f)
+    selfn, pathn = f.params[0], f.params[1]
+    bad = None
+    lists = [[], list(SAMPLE_RECORDS)] + [[r] for r in SAMPLE_RECORDS]
+    n = 0
+    for recs in lists:
+        for path in ("out.gwl", "dir/Out.GWL"):
+            kind, _ = init_model.run_function(f, {selfn: list(recs), pathn: path}, ctx.prog)
+            n += 1
+            if kind == "raise" and bad is None and len(recs) <= 1:
+                bad = (recs, path)
+            elif kind == "raise" and bad is None:
+                bad = (["<all sample records>"], path)
+    if bad and bad[0] == ["<all sample records>"]:
+        # name the record
+        for recs in lists[2:]:
+            if init_model.run_function(f, {selfn: list(recs), pathn: "out.gwl"}, ctx.prog)[0] == "raise":
+                bad = (recs, "out.gwl")
+                break
+    ctx.rep.check(bad is None, rule, f"{f.qualname}/valid-worklists", f"none of the {n} (record list, path) pairs of the evaluation table is refused",
+                  f"save() refuses the worklist {bad[0] if bad else ''} (path {bad[1] if bad else ''}): a guard that rejects it was reached, no file with these records is written", where=f.where())
